@@ -187,6 +187,52 @@ def run (x y : Nat) (G : Graph) : List Op → Graph × List (Option Err)
     let rest := run x y r.1 ops
     (rest.1, r.2 :: rest.2)
 
+/-! ### The object: graph plus the two result attributes; `calculate_adjustment_sets` as a call among the edits -/
+
+/-- a `DirectedAcyclicGraph` instance: `self.dag`, `self.adjustment_sets`, `self.minimal_adjustment_sets` -/
+structure Obj where
+  dag : Graph
+  adj : Option (List (List Nat))
+  minAdj : Option (List (List Nat))
+  deriving Repr
+
+/-- `DirectedAcyclicGraph(exposure=x, outcome=y)` -/
+def newObj (x y : Nat) : Obj := ⟨init x y, none, none⟩
+
+inductive Call where
+  | edit (op : Op)
+  | calculate
+  deriving Repr
+
+/-- one public call on the object.  The editing calls do not touch the result attributes; `calculate` always
+    recomputes both from the graph as it is now (there is no cache). -/
+def callStep (x y : Nat) (o : Obj) : Call → Obj × Option Err
+  | .edit op => let r := step x y o.dag op; ({ o with dag := r.1 }, r.2)
+  | .calculate =>
+    let L := listAll o.dag x y
+    ({ o with adj := some L, minAdj := some (minimal L) }, none)
+
+/-- what the caller can see after a call: the error raised, and (after `calculate`) the two attributes -/
+abbrev Obs := Option Err × Option (List (List Nat) × List (List Nat))
+
+def observe (o : Obj) (c : Call) (e : Option Err) : Obs :=
+  match c with
+  | .edit _ => (e, none)
+  | .calculate => (e, match o.adj, o.minAdj with | some a, some m => some (a, m) | _, _ => none)
+
+def runObj (x y : Nat) (o : Obj) : List Call → Obj × List Obs
+  | [] => (o, [])
+  | c :: cs =>
+    let r := callStep x y o c
+    let rest := runObj x y r.1 cs
+    (rest.1, observe r.1 c r.2 :: rest.2)
+
+/-- the editing calls of a history -/
+def edits : List Call → List Op
+  | [] => []
+  | .edit op :: cs => op :: edits cs
+  | .calculate :: cs => edits cs
+
 /-! ### Path-blocking d-separation (used only by the bounded supplement: moral criterion vs. path blocking) -/
 
 /-- all simple paths from `cur` to `t` in the skeleton of `E`, not revisiting `vis` -/
